@@ -432,5 +432,26 @@ def run(F, rep, tier):
     fe = {p for p in F.fns if p.startswith(('lex::', 'core::Parser', 'core::parse', 'core::to_lvalue', 'decimal::'))}
     n5 = check_casts(C, fe, rep, 'R15.5', T.CAST_TABLE, 'literal decoding')
     rep.ok('R15.5', 'front-end scan', '%d function(s), %d reviewed lossy cast(s)' % (len(fe), n5))
+    # ---------------- R15.6
+    rep.rule('R15.6', 'a float literal denotes the correctly rounded value of its whole text: the payload of every Token::FloatLit / '
+             'ImaginaryFloatLit built by the lexer is the result of one str::parse::<f64> and nothing else (no arithmetic on partial parses: '
+             'mantissa * 10^exp is not correctly rounded and loses subnormals)')
+    n6 = 0
+    for p_ in sorted(F.bodies_raw):
+        if not p_.startswith('lex::') or '::promoted' in p_:
+            continue
+        lb_ = F.body(p_)
+        for bb, s_ in lb_.aggregates():
+            if s_[2][2] == 'lex::Token' and s_[2][4] in ('FloatLit', 'ImaginaryFloatLit'):
+                n6 += 1
+                og = set()
+                for o in s_[2][5]:
+                    og |= origins(lb_, o, passthru=('branch', 'unwrap', 'expect'))
+                bad = [o for o in og if not (o[0] == 'call' and o[1].endswith('str>::parse') and o[3] == 'f64')]
+                if og and not bad:
+                    rep.ok('R15.6', '%s %s' % (p_, s_[2][4]), 'payload = parse::<f64>(text)')
+                else:
+                    rep.viol('R15.6', '%s|%s|payload' % (p_, s_[2][4]), 'the value of a %s token is computed from %s rather than parsed from the literal text in one piece: the literal no longer denotes exactly (correctly rounded) what its digits spell' % (s_[2][4], sorted(str(o[:2]) for o in bad)), lb_.loc(bb))
+    rep.floor('R15.6', 'float literal tokens built', n6, 2)
     rep.undecided += ['str::parse::<f64> / BigInt digit semantics', 'recursion depth of nested input']
     return META
